@@ -46,7 +46,7 @@ def area_of(line):
 
 def gen(run):
     quick = run.tier == "quick"
-    yield from P.standard_stream(run, 200 if quick else 4000, 300 if quick else 10000, 3 if quick else 4)
+    yield from P.standard_stream(run, 200 if quick else 20000, 300 if quick else 50000, 3 if quick else 4)
     # mp4: random garbage and spliced files
     rng = run.rng
     seeds = [b"".join(l) for l in P.seed_layouts(rng)]
@@ -78,7 +78,7 @@ def gen(run):
     # random bytes almost never get past the first prefix code, these reach the pixel loops and the LZ77 arithmetic
     from props import _c07_vp8l as G
     from props import _c19_vp8l as V
-    for i in range(150 if quick else 6000):
+    for i in range(150 if quick else 20000):
         k = i % 3
         if k == 0:
             w, h, body, _ = G.build(rng)
